@@ -33,9 +33,9 @@ const (
 // coreConfig implements epochkghandler.Config.
 type coreConfig struct{ addr common.Address }
 
-func (c coreConfig) GetAddress() common.Address       { return c.addr }
-func (c coreConfig) GetInstanceID() uint64            { return InstanceID }
-func (c coreConfig) GetMaxNumKeysPerMessage() uint64  { return MaxKeysPerMsg }
+func (c coreConfig) GetAddress() common.Address      { return c.addr }
+func (c coreConfig) GetInstanceID() uint64           { return InstanceID }
+func (c coreConfig) GetMaxNumKeysPerMessage() uint64 { return MaxKeysPerMsg }
 
 // KeyperKeys returns deterministic ECDSA keys for the n keypers of a world.
 func KeyperKeys(n int, seed int64) []*ecdsa.PrivateKey {
